@@ -227,7 +227,8 @@ func mutateExpr(kind, mut string, t hs.Expr) ([]hs.Stmt, bool) {
 
 // ---------------------------------------------------------------- S6
 
-var forIterables = []string{"list", "range", "str", "list-of-lists", "range-inclusive", "empty-list", "call-returning-shared-list", "call-returning-parameter", "field-of-object", "element-of-list", "grouped-variable"}
+var forIterables = []string{"list", "range", "str", "list-of-lists", "range-inclusive", "empty-list", "call-returning-shared-list", "call-returning-parameter", "field-of-object", "element-of-list", "grouped-variable",
+	"range-descending", "range-descending-inclusive", "range-descending-inclusive-adjacent", "range-empty", "range-single-inclusive", "range-negative-bounds"}
 var forBodies = []string{"read", "push-to-source", "set-source-elem", "reassign-source", "assign-loop-var", "pop-source", "nested-same-source", "break-first", "continue-odd", "break-then-reiterate", "return-then-reiterate", "throw-then-reiterate", "iterate-twice"}
 
 func forCount() int { return len(forIterables) * len(forBodies) }
@@ -246,7 +247,19 @@ func forGen(idx int) (progCase, bool) {
 	case "range":
 		src = &hs.RangeLit{From: hs.I(0), To: hs.I(3)}
 	case "range-inclusive":
-		return progCase{}, false
+		src = &hs.RangeLit{From: hs.I(0), To: hs.I(3), Incl: true}
+	case "range-descending":
+		src = &hs.RangeLit{From: hs.I(3), To: hs.I(0)}
+	case "range-descending-inclusive":
+		src = &hs.RangeLit{From: hs.I(5), To: hs.I(1), Incl: true}
+	case "range-descending-inclusive-adjacent":
+		src = &hs.RangeLit{From: hs.I(3), To: hs.I(2), Incl: true}
+	case "range-empty":
+		src = &hs.RangeLit{From: hs.I(2), To: hs.I(2)}
+	case "range-single-inclusive":
+		src = &hs.RangeLit{From: hs.I(2), To: hs.I(2), Incl: true}
+	case "range-negative-bounds":
+		src = &hs.RangeLit{From: hs.I(-2), To: hs.I(2), Incl: true}
 	case "str":
 		src = hs.S("héy")
 	case "list-of-lists":
@@ -314,7 +327,7 @@ func forGen(idx int) (progCase, bool) {
 			inner = append(inner, hs.ES(hs.Asg("=", hs.V("s"), hs.List(hs.I(7)))))
 		case "list-of-lists":
 			inner = append(inner, hs.ES(hs.Asg("=", hs.V("s"), hs.List(hs.List(hs.I(7))))))
-		case "range":
+		case "range", "range-inclusive", "range-descending", "range-descending-inclusive", "range-descending-inclusive-adjacent", "range-empty", "range-single-inclusive", "range-negative-bounds":
 			inner = append(inner, hs.ES(hs.Asg("=", hs.V("s"), &hs.RangeLit{From: hs.I(0), To: hs.I(1)})))
 		case "str":
 			inner = append(inner, hs.ES(hs.Asg("=", hs.V("s"), hs.S("z"))))
@@ -353,7 +366,7 @@ func forGen(idx int) (progCase, bool) {
 			pt = hs.TList(hs.TInt)
 		case "list-of-lists":
 			pt = hs.TList(hs.TList(hs.TInt))
-		case "range":
+		case "range", "range-inclusive", "range-descending", "range-descending-inclusive", "range-descending-inclusive-adjacent", "range-empty", "range-single-inclusive", "range-negative-bounds":
 			pt = hs.TRange
 		case "str":
 			pt = hs.TStr
